@@ -90,6 +90,7 @@ struct CutOv {
     call: String,
     sig: String,
     spec: String,
+    tail: String,
 }
 #[derive(Default, Debug, Clone)]
 struct FnOverlay {
@@ -102,6 +103,7 @@ struct FnOverlay {
     expect: HashMap<String, usize>,
     opts: HashMap<String, String>,
     drop_stmts: Vec<String>,
+    folds: BTreeMap<String, String>,
 }
 #[derive(Debug)]
 enum Directive {
@@ -121,8 +123,11 @@ fn parse_vspec(path: &str) -> (String, Vec<Directive>) {
     fn body<'a>(lines: &[&'a str], i: &mut usize) -> String {
         let mut s = String::new();
         while *i < lines.len() && !lines[*i].starts_with('@') {
-            s.push_str(lines[*i]);
-            s.push('\n');
+            // `# ...` in column 0 is a vspec comment (Verus attributes start with `#[`)
+            if !(lines[*i].starts_with("# ") || lines[*i] == "#") {
+                s.push_str(lines[*i]);
+                s.push('\n');
+            }
             *i += 1;
         }
         s
@@ -240,12 +245,19 @@ fn parse_vspec(path: &str) -> (String, Vec<Directive>) {
                                     c.call = x.trim().to_string();
                                 } else if let Some(x) = t.strip_prefix("sig:") {
                                     c.sig = x.trim().to_string();
+                                } else if let Some(x) = t.strip_prefix("tail:") {
+                                    c.tail = x.trim().to_string();
                                 } else {
                                     c.spec.push_str(bl);
                                     c.spec.push('\n');
                                 }
                             }
                             ov.cuts.push(c);
+                        }
+                        "@fold" => {
+                            i += 1;
+                            let b = body(&lines, &mut i);
+                            ov.folds.insert(rest.to_string(), b.trim().to_string());
                         }
                         "@drop" => {
                             ov.drop_stmts.push(rest.to_string());
@@ -371,6 +383,7 @@ struct Walker<'s> {
     loops: usize,
     closures: usize,
     ifs: usize,
+    folds: usize,
     env: Vec<HashMap<String, (K, K)>>,
     used: HashSet<String>,
     cut_defs: Vec<String>,
@@ -564,7 +577,7 @@ impl<'s> Walker<'s> {
             if let Some(t) = self.anchor_text(&key) {
                 self.open(st_start, &format!("{}\n", t.trim_end()), "overlay");
             }
-            let is_tail = k == n - 1 && matches!(st, syn::Stmt::Expr(_, None));
+            let is_tail = k == n - 1 && is_value_tail(st);
             if is_tail {
                 if let Some(t) = self.anchor_text(&format!("{}.end", name)) {
                     self.open(st_start, &format!("{}\n", t.trim_end()), "overlay");
@@ -583,10 +596,11 @@ impl<'s> Walker<'s> {
                 let body = self.src.text[s..e].to_string();
                 self.replace((s, e), &format!("{};", c.call), "R10");
                 self.cut_defs.push(format!(
-                    "#[verifier::external_body]\n{}\n{}{{\n    {}\n}}\n",
+                    "#[verifier::external_body]\n{}\n{}{{\n    {}\n    {}\n}}\n",
                     c.sig,
                     c.spec,
-                    body
+                    body,
+                    c.tail
                 ));
                 self.cut_info.push(serde_json::json!({"name": c.name, "anchor": key, "repo_line": self.src.line_of(s), "statement": body}));
                 continue;
@@ -600,7 +614,7 @@ impl<'s> Walker<'s> {
             self.walk_stmt(st);
         }
         let close = self.src.off(b.brace_token.span.close().start());
-        let has_tail = n > 0 && matches!(b.stmts[n - 1], syn::Stmt::Expr(_, None));
+        let has_tail = n > 0 && is_value_tail(&b.stmts[n - 1]);
         if !has_tail {
             if let Some(t) = self.anchor_text(&format!("{}.end", name)) {
                 self.open(close, &format!("{}\n", t.trim_end()), "overlay");
@@ -890,14 +904,66 @@ impl<'s> Walker<'s> {
                 self.rewrite_macro(&m.mac, r);
             }
             MethodCall(m) => {
-                self.walk_expr(&m.receiver);
                 let mname = m.method.to_string();
-                if mname == "collect_vec" {
-                    let r = self.src.range(m.method.span());
-                    self.replace(r, "collect::<Vec<_>>", "R11");
+                // R13: provided Iterator methods are routed through wrapper functions whose body is the same call
+                let (es, ee) = self.src.range(e.span());
+                let (_, re) = self.src.range(m.receiver.span());
+                let po_end = self.src.off(m.paren_token.span.open().end());
+                let pc_start = self.src.off(m.paren_token.span.close().start());
+                let mut handled_collect = false;
+                match mname.as_str() {
+                    "fold" => {
+                        self.folds += 1;
+                        let key = format!("F{}", self.folds);
+                        let inv = self.ov.folds.get(&key).cloned().unwrap_or_else(|| die(&format!("lost anchor: fold `{}` has no @fold overlay (invariant) at {}:{}", key, self.src.path, self.src.line_of(es))));
+                        self.used.insert(format!("fold:{}", key));
+                        self.open(es, "verif_fold(", "R13");
+                        self.replace((re, po_end), ", ", "R13");
+                        let lead = if m.args.trailing_punct() { "" } else { ", " };
+                        self.close(pc_start, &format!("{}Ghost({})", lead, inv), "R13");
+                    }
+                    "enumerate" if m.args.is_empty() => {
+                        self.open(es, "verif_enumerate(", "R13");
+                        self.replace((re, ee), ")", "R13");
+                    }
+                    "zip" if m.args.len() == 1 => {
+                        self.open(es, "verif_zip(", "R13");
+                        self.replace((re, po_end), ", ", "R13");
+                    }
+                    "collect_vec" | "collect" | "unzip" => {
+                        // `.map(F).collect_vec()` / `.map(F).unzip()`  ->  verif_map_collect(RECV, F) / verif_map_unzip(RECV, F)
+                        if let MethodCall(inner) = &*m.receiver {
+                            if inner.method == "map" && inner.args.len() == 1 {
+                                let (is, _) = self.src.range(inner.span());
+                                let (_, ire) = self.src.range(inner.receiver.span());
+                                let ipo_end = self.src.off(inner.paren_token.span.open().end());
+                                let ipc_start = self.src.off(inner.paren_token.span.close().start());
+                                let w = if mname == "unzip" { "verif_map_unzip(" } else { "verif_map_collect(" };
+                                self.open(is, w, "R13");
+                                self.replace((ire, ipo_end), ", ", "R13");
+                                self.replace((ipc_start, ee), ")", "R13");
+                                self.walk_expr(&inner.receiver);
+                                for a in inner.args.iter() {
+                                    self.walk_arg_hof(a, true);
+                                }
+                                handled_collect = true;
+                            }
+                        }
+                        if !handled_collect && mname == "collect_vec" {
+                            let r = self.src.range(m.method.span());
+                            self.replace(r, "collect::<Vec<_>>", "R11");
+                        }
+                    }
+                    _ => {}
                 }
+                if handled_collect {
+                    self.depth -= 1;
+                    return;
+                }
+                self.walk_expr(&m.receiver);
+                let hof = ["map_err", "map", "and_then", "map_or", "map_or_else", "unwrap_or_else", "ok_or_else", "filter_map", "flat_map"].contains(&mname.as_str());
                 for a in m.args.iter() {
-                    self.walk_arg(a);
+                    self.walk_arg_hof(a, hof);
                 }
             }
             Call(c) => {
@@ -1003,6 +1069,9 @@ impl<'s> Walker<'s> {
     }
 
     fn walk_arg(&mut self, a: &syn::Expr) {
+        self.walk_arg_hof(a, false)
+    }
+    fn walk_arg_hof(&mut self, a: &syn::Expr, hof: bool) {
         // cfg(feature = "log") arguments are dropped together with their comma (R5)
         if let Some(true) = has_cfg_log(expr_attrs(a)) {
             let (s, mut e) = self.src.range(a.span());
@@ -1019,7 +1088,7 @@ impl<'s> Walker<'s> {
         }
         // R4b: a tuple-variant constructor used as a function value
         if let syn::Expr::Path(p) = a {
-            if p.path.segments.len() >= 2 {
+            if hof && p.path.segments.len() >= 2 {
                 let last = p.path.segments.last().unwrap().ident.to_string();
                 let prev = p.path.segments[p.path.segments.len() - 2].ident.to_string();
                 if last.chars().next().map(|c| c.is_uppercase()).unwrap_or(false)
@@ -1186,6 +1255,14 @@ impl<'s> Walker<'s> {
             other => self.walk_expr(other),
         }
         self.env.pop();
+    }
+}
+
+/// a trailing expression that is the value of its block (loops without `;` are statements of type `()`)
+fn is_value_tail(st: &syn::Stmt) -> bool {
+    match st {
+        syn::Stmt::Expr(e, None) => !matches!(e, syn::Expr::ForLoop(_) | syn::Expr::While(_) | syn::Expr::Loop(_)),
+        _ => false,
     }
 }
 
@@ -1378,6 +1455,7 @@ fn extract_fn(src: &Src, file: &syn::File, selector: &str, ov: &FnOverlay, map: 
         loops: 0,
         closures: 0,
         ifs: 0,
+        folds: 0,
         env: vec![HashMap::new()],
         used: HashSet::new(),
         cut_defs: Vec::new(),
@@ -1415,7 +1493,7 @@ fn extract_fn(src: &Src, file: &syn::File, selector: &str, ov: &FnOverlay, map: 
                 }
                 first = false;
                 // parameter type with R3 applied
-                let mut tw = Walker { src, ov, edits: Vec::new(), depth: 0, loops: 0, closures: 0, ifs: 0, env: vec![HashMap::new()], used: HashSet::new(), cut_defs: vec![], cut_info: vec![], r2: true };
+                let mut tw = Walker { src, ov, edits: Vec::new(), depth: 0, loops: 0, closures: 0, ifs: 0, folds: 0, env: vec![HashMap::new()], used: HashSet::new(), cut_defs: vec![], cut_info: vec![], r2: true };
                 tw.walk_type(&pt.ty);
                 let (ts, te) = src.range(pt.ty.span());
                 let (tytxt, _) = apply(src, ts, te, &mut tw.edits);
@@ -1430,7 +1508,7 @@ fn extract_fn(src: &Src, file: &syn::File, selector: &str, ov: &FnOverlay, map: 
     }
     head.push(')');
     if let syn::ReturnType::Type(_, ty) = &sig.output {
-        let mut tw = Walker { src, ov, edits: Vec::new(), depth: 0, loops: 0, closures: 0, ifs: 0, env: vec![HashMap::new()], used: HashSet::new(), cut_defs: vec![], cut_info: vec![], r2: true };
+        let mut tw = Walker { src, ov, edits: Vec::new(), depth: 0, loops: 0, closures: 0, ifs: 0, folds: 0, env: vec![HashMap::new()], used: HashSet::new(), cut_defs: vec![], cut_info: vec![], r2: true };
         tw.walk_type(ty);
         let (ts, te) = src.range(ty.span());
         let (tytxt, _) = apply(src, ts, te, &mut tw.edits);
@@ -1453,7 +1531,7 @@ fn extract_fn(src: &Src, file: &syn::File, selector: &str, ov: &FnOverlay, map: 
         if *c == sel.sig.ident.to_string() || norm(c) == norm(selector) {
             canary_here = true;
             let n = sel.block.stmts.len();
-            let pos = if n > 0 && matches!(sel.block.stmts[n - 1], syn::Stmt::Expr(_, None)) {
+            let pos = if n > 0 && is_value_tail(&sel.block.stmts[n - 1]) {
                 src.off(sel.block.stmts[n - 1].span().start())
             } else {
                 src.off(sel.block.brace_token.span.close().start())
@@ -1467,6 +1545,7 @@ fn extract_fn(src: &Src, file: &syn::File, selector: &str, ov: &FnOverlay, map: 
             "loops" => w.loops,
             "closures" => w.closures,
             "ifs" => w.ifs,
+            "folds" => w.folds,
             "stmts" => sel.block.stmts.len(),
             _ => die(&format!("unknown @expect key {}", k)),
         };
@@ -1489,6 +1568,11 @@ fn extract_fn(src: &Src, file: &syn::File, selector: &str, ov: &FnOverlay, map: 
             die(&format!("lost anchor: cut position `{}` does not exist in `{}`", c.anchor, selector));
         }
     }
+    for k in ov.folds.keys() {
+        if !w.used.contains(&format!("fold:{}", k)) {
+            die(&format!("lost anchor: fold `{}` does not exist in `{}`", k, selector));
+        }
+    }
     for d in ov.drop_stmts.iter() {
         if !w.used.contains(&format!("drop:{}", d)) {
             die(&format!("lost anchor: drop position `{}` does not exist in `{}`", d, selector));
@@ -1502,7 +1586,7 @@ fn extract_fn(src: &Src, file: &syn::File, selector: &str, ov: &FnOverlay, map: 
     let mut pre_lines = 0usize;
     if let Some(im) = sel.imp {
         let g = generics_text(src, &im.generics, &mut sigrules);
-        let mut tw = Walker { src, ov, edits: Vec::new(), depth: 0, loops: 0, closures: 0, ifs: 0, env: vec![HashMap::new()], used: HashSet::new(), cut_defs: vec![], cut_info: vec![], r2: true };
+        let mut tw = Walker { src, ov, edits: Vec::new(), depth: 0, loops: 0, closures: 0, ifs: 0, folds: 0, env: vec![HashMap::new()], used: HashSet::new(), cut_defs: vec![], cut_info: vec![], r2: true };
         tw.walk_type(&im.self_ty);
         let (ts, te) = src.range(im.self_ty.span());
         let (selfty, _) = apply(src, ts, te, &mut tw.edits);
@@ -1523,11 +1607,19 @@ fn extract_fn(src: &Src, file: &syn::File, selector: &str, ov: &FnOverlay, map: 
     text.push_str(&head);
     text.push_str(&body);
     text.push('\n');
+    // statement cuts that use `self` are emitted as methods of the same impl block
+    for d in w.cut_defs.iter() {
+        if sel.imp.is_some() && d.contains("self") {
+            text.push_str(d);
+        }
+    }
     if sel.imp.is_some() {
         text.push_str("}\n");
     }
     for d in w.cut_defs.iter() {
-        text.push_str(d);
+        if !(sel.imp.is_some() && d.contains("self")) {
+            text.push_str(d);
+        }
     }
     // ---- map -----------------------------------------------------------------------------------------
     let (ws, we) = src.range(sel.whole);
@@ -1583,7 +1675,7 @@ fn extract_struct(src: &Src, file: &syn::File, name: &str, opts: &HashMap<String
                 t.push_str(&format!("pub struct {}{} {{\n", s.ident, g));
                 let mut n_r3 = 0;
                 for f in s.fields.iter() {
-                    let mut tw = Walker { src, ov: &ov, edits: Vec::new(), depth: 0, loops: 0, closures: 0, ifs: 0, env: vec![HashMap::new()], used: HashSet::new(), cut_defs: vec![], cut_info: vec![], r2: true };
+                    let mut tw = Walker { src, ov: &ov, edits: Vec::new(), depth: 0, loops: 0, closures: 0, ifs: 0, folds: 0, env: vec![HashMap::new()], used: HashSet::new(), cut_defs: vec![], cut_info: vec![], r2: true };
                     tw.walk_type(&f.ty);
                     n_r3 += tw.edits.len();
                     let (ts, te) = src.range(f.ty.span());
